@@ -426,6 +426,60 @@ def r7(ctx):
             ctx.ok(fi.qualname.split(':')[1], 'no write reaches the regions being serialised')
 
 
+CASA_FRAMES = {'J2000', 'JMEAN', 'JTRUE', 'APP', 'B1950', 'B1950_VLA', 'BMEAN', 'BTRUE', 'GALACTIC', 'HADEC', 'AZEL',
+               'AZELSW', 'AZELNE', 'AZELGEO', 'AZELSWGEO', 'AZELNEGEO', 'JNAT', 'ECLIPTIC', 'MECLIPTIC', 'TECLIPTIC',
+               'SUPERGAL', 'ITRF', 'TOPO', 'ICRS', 'IMAGE'}
+
+
+def r8(ctx):
+    """vocabulary agreement beyond shapes: CASA frame names, read-side box notations, metadata keys."""
+    m = ctx.model
+    t = tables(m, IO_CORE).env
+    wmap = t.get('coordsys_mapping', {}).get('CRTF', {})
+    bad = sorted(v for v in wmap.values() if v not in CASA_FRAMES)
+    if bad:
+        ctx.bad('coordsys_mapping', f'not-casa:{bad[0]}', f'the writer emits coord={bad}, which are not CASA frame keywords '
+                f'(CASA: {sorted(CASA_FRAMES)[:8]}...)', 'regions/io/crtf/io_core.py')
+    else:
+        ctx.ok('coordsys_mapping', 'every written frame name is a CASA keyword')
+    regmap = t.get('reg_mapping', {}).get('CRTF', {})
+    want = {'box': 'rectangle', 'centerbox': 'rectangle', 'rotbox': 'rectangle', 'poly': 'polygon', 'symbol': 'point',
+            'text': 'text', 'annulus': 'circleannulus', 'circle': 'circle', 'ellipse': 'ellipse', 'line': 'line'}
+    diff = {k: regmap.get(k) for k, v in want.items() if regmap.get(k) != v}
+    if diff:
+        ctx.bad('reg_mapping', f'token-map:{sorted(diff)[0]}', f'CRTF definitions map to the wrong region types: {diff} (expected {want})',
+                'regions/io/crtf/io_core.py')
+    else:
+        ctx.ok('reg_mapping', 'box/centerbox/rotbox -> rectangle, poly -> polygon, symbol -> point, annulus -> circle annulus')
+    # read-side notations
+    for token, tpl, fields in (('centerbox', '{0}centerbox[[{1}deg, {2}deg], [{3}deg, {4}deg]]', {'width': 'T3deg', 'height': 'T4deg'}),
+                               ('rotbox', '{0}rotbox[[{1}deg, {2}deg], [{3}deg, {4}deg], {5}deg]',
+                                {'width': 'T3deg', 'height': 'T4deg', 'angle': 'T5deg'})):
+        pr, sh, reg, _ = eval_reader(m, tpl, token)
+        ok = reg is not None and reg.cls == 'RectangleSkyRegion' and all(
+            _tok_of(reg.fields.get(f)) == (tk, 1) for f, tk in fields.items())
+        if ok:
+            ctx.ok(f'read:{token}', 'becomes a rectangle with [width, height](, angle)')
+        else:
+            ctx.bad('_CRTFRegionParser', f'notation:{token}', f'"{token}" is read as {show(reg, 200)}', 'regions/io/crtf/read.py')
+    # metadata keys: what the reader accepts inline must be writable
+    f = m.func(IO_CORE, '_to_crtf_meta')
+    wkeys = []
+    for st in stmts_of(f.node):
+        if isinstance(st, (ast.Assign, ast.AugAssign)) and norm(st.targets[0] if isinstance(st, ast.Assign) else st.target) == 'valid_keys':
+            wkeys += ast.literal_eval(st.value)
+    pkeys = class_tables(m, '_CRTFParser').get('valid_global_keys')
+    ctx.need(wkeys and isinstance(pkeys, tuple), 'crtf meta tables', 'not evaluable')
+    accepted = (set(pkeys) | {'label'}) - {'coord'}
+    lost = sorted(accepted - set(wkeys))
+    if lost:
+        ctx.bad('_to_crtf_meta', f'meta-keys-lost:{lost[0]}',
+                f'the reader accepts the CRTF keys {lost} but the writer\'s key whitelist drops them: parse -> serialise -> parse '
+                'is not a fixed point for regions carrying them', f.loc())
+    else:
+        ctx.ok('_to_crtf_meta', 'every key the reader accepts is in the writer whitelist')
+
+
 RULES = [
     RuleDef('R1', 'frame tables mutually inverse', r1, 8),
     RuleDef('R2', 'shape vocabulary: class -> type -> token -> class; text written', r2, 17),
@@ -434,4 +488,5 @@ RULES = [
     RuleDef('R5', 'global then inline metadata', r5, 2),
     RuleDef('R6', 'lengths need units', r6, 1),
     RuleDef('R7', 'serialisers do not mutate the regions', r7, 2),
+    RuleDef('R8', 'CASA frame keywords; read-side box notations; metadata key agreement', r8, 5),
 ]
